@@ -54,6 +54,12 @@ def path_join_safe(root_directory: str, filename: str):
     path = os.path.join(root_directory, filename)
     path = os.path.abspath(path)
 
+    # an absolute filename replaces the root in os.path.join: make sure
+    # the result is the root directory or a path below it
+    root = os.path.abspath(root_directory)
+    if path != root and not path.startswith(os.path.join(root, "")):
+        raise ValueError("invalid path")
+
     return path
 
 class Response(object):
